@@ -14,6 +14,15 @@ CLAIMED = {
    note="Trusted: Coq kernel + vm_compute; the hand-written model (checked against /repo by correspondence only, on the generated cases); "
         "harness (float->rational, literal writer); TF/NumPy semantics; row-wise score assumption.",
    design="5 (C06)", technique="Coq proof Model=Spec by induction over mask batches + exact differential correspondence (vm_compute)"),
+ "C19": dict(
+   text="Machine-checked proof that the executable heap-based model of Objective (+, -, scalar *, compile) compiles every program's "
+        "expression to the linear combination it denotes, never modifies operand objects, enumerates combinations as the Cartesian "
+        "product, and that min-max rescaling lands in the requested range; the model is tied to /repo by running random objective "
+        "programs through the real Objective class and comparing multipliers, combinations and compiled losses. The original code "
+        "violated the property (three defects, refuted in Coq, reproduced, fixed in /repo).",
+   note="Trusted: Coq kernel + vm_compute; hand-written heap model (checked by correspondence); sub-losses taken from the implementation's own "
+        "sub-objective functions; float32 tolerance 2e-5 relative; sigmoid/recorrelation/FFT are library code (range checked on outputs only).",
+   design="5 (C19)", technique="Coq proof over a heap/program semantics (invariant by induction over statements) + differential correspondence"),
 }
 PENDING_REASON = "check not built yet in this session (work in progress; planned in DESIGN.md section 5)"
 
